@@ -50,16 +50,26 @@ Print Assumptions hosts_share_interpreter.
 (* ---------------------------------------------------------------- theorems about the interpreter model *)
 
 (* precedence and associativity, any nesting depth, any number structure, any keyword table, any environment:
-   the token stream printed from an expression AST with minimal parentheses evaluates (precedence climbing,
-   token level, enough fuel) to the AST's reference value and consumes exactly the printed tokens *)
-Theorem expr_tokens_eval_eq_ast :
+   the token stream printed from an expression AST (numbers, strings, variables, unary - NOT, the 14 one-argument
+   functions, all 15 binary operators) with minimal parentheses evaluates (precedence climbing, token level, enough
+   fuel) to the AST's reference value and consumes exactly the printed tokens.
+   FULL statement of DESIGN.md (not proved here): `expr (pr 0 a ++ rest) = eval_ast a` also when eval_ast a is a BASIC
+   error (type mismatch, negative base with fractional exponent): the error direction is missing, hence _partial. *)
+Theorem expr_tokens_eval_eq_ast_partial :
   forall (num : Type) (ops : numops num) (tbl : kwtable) (hp : bool) (e : env num) (a : ex) (v : val num) (rest : list tok),
     eval_ast num ops hp e a = Ok v -> not_operator rest -> no_lp rest ->
     exists N, forall f, N <= f -> expr num ops tbl hp f e (pr 0 a ++ rest) = Ok (v, rest).
 Proof. exact PrecProof.expr_tokens_eval_eq_ast. Qed.
-Print Assumptions expr_tokens_eval_eq_ast.
+Print Assumptions expr_tokens_eval_eq_ast_partial.
 
-(* the hypotheses are satisfiable, on binary64 with the regenerated keyword table: 1 + 2 * 3 ^ 2 / 4 - 5 < 7 AND NOT 0 *)
+(* the hypotheses are satisfiable, on binary64 with the regenerated keyword table:
+   1 + 2 * 3 ^ 2 / 4 - 5 < 7 AND NOT 0   and   "ab" + "c" = "abc" *)
+Example expr_tokens_eval_eq_ast_example_str :
+  let a := EBin Beq (EBin Badd (EStr "ab") (EStr "c")) (EStr "abc") in
+  eval_ast float float_ops true (empty_env float) a = Ok (VNum 1%float) /\
+  expr float float_ops command_tokens true 200 (empty_env float) (pr 0 a) = Ok (VNum 1%float, []).
+Proof. vm_compute. split; reflexivity. Qed.
+
 Example expr_tokens_eval_eq_ast_example :
   let a := EBin Band (EBin Blt (EBin Bsub (EBin Badd (ENum 1 0) (EBin Bdiv (EBin Bmul (ENum 2 0) (EBin Bpow (ENum 3 0) (ENum 2 0))) (ENum 4 0))) (ENum 5 0)) (ENum 7 0))
                 (ENot (ENum 0 0)) in
@@ -114,6 +124,18 @@ Theorem gosub_return_stack :
                  s_t num s3 = skiptoeos t /\ s_env num s3 = s_env num s2 /\ s_out num s3 = s_out num s2.
 Proof. exact ExecProof.gosub_return_stack. Qed.
 Print Assumptions gosub_return_stack.
+
+(* DIM/PUT/GET store laws: PUT then GET of the same subscripts yields the value, every other key is untouched;
+   the same for scalar variables *)
+Theorem put_get_laws : forall (A : Type) (l : list (list Z * A)) k v,
+  assoc_k (set_k l k v) k = Some v /\ forall k', k' <> k -> assoc_k (set_k l k v) k' = assoc_k l k'.
+Proof. exact (@ExecProof.put_get_laws). Qed.
+Print Assumptions put_get_laws.
+
+Theorem var_store_laws : forall (A : Type) (l : list (string * A)) x v,
+  assoc_s (set_s l x v) x = Some v /\ forall y, y <> x -> assoc_s (set_s l x v) y = assoc_s l y.
+Proof. exact (@ExecProof.var_store_laws). Qed.
+Print Assumptions var_store_laws.
 
 (* malformed programs end in a BASIC error *)
 Theorem malformed_line_is_error : forall (tbl : kwtable) lines s m,
